@@ -37,11 +37,27 @@ def StacksAgree (p : Program) (vm : VM) : List Frame → List Act → Prop
 
 def ViewsAgree (p : Program) (c : Config) (vm : VM) : Prop := StacksAgree p vm c.stack vm.stack
 
+/-- `vmRun` is the iteration used in the simulation proof -/
+theorem vmRun_eq_runFrom (p : Program) (m : Nat) : vmRun p m = Sim.runFrom (VM.mk' p) m := by
+  induction m with
+  | zero => rfl
+  | succ m ih => show (vmRun p m).bind _ = (Sim.runFrom (VM.mk' p) m).bind _; rw [ih]
+
+/-- the agreement established by the simulation is `StacksAgree` -/
+theorem stacksAgree_of (p : Program) (vm : VM) : ∀ (frs : List Frame) (as : List Act),
+    Sim.StacksAgree' p vm.data frs as → StacksAgree p vm frs as
+  | [], [], _ => trivial
+  | _ :: frs, _ :: as, h => ⟨h.1, stacksAgree_of p vm frs as h.2⟩
+  | [], _ :: _, h => h
+  | _ :: _, [], h => h
+
 /-- the reference execution of a validated program never gets stuck (every callee and every
     jump target exists) -/
 theorem C01_never_stuck (src : Source) (p : Program) (hs : shapeCheck src p = true) (n : Nat) :
     (Sem.run src n (initial src) 0).1.status ≠ .stuck := by
-  sorry
+  obtain ⟨V, hV⟩ := Sim.valid_of_shapeCheck hs
+  rw [Sim.run_fst]
+  exact (Sim.pinv_iter hV n).1
 
 /-- if the reference execution halts (end of the program, or STOP anywhere), the bytecode run
     reaches HALT with the same live activations and the same value of every user variable -/
@@ -50,14 +66,25 @@ theorem C01_halts_same_values (src : Source) (p : Program)
     (n : Nat) (hh : (Sem.run src n (initial src) 0).1.status = .halted) :
     ∃ m vm, vmRun p m = .ok vm ∧ vm.isDone = .ok true ∧
       ViewsAgree p (Sem.run src n (initial src) 0).1 vm := by
-  sorry
+  obtain ⟨V, hV⟩ := Sim.valid_of_shapeCheck hs
+  obtain ⟨R, hc⟩ := WF.certOK_of_check hw
+  rw [Sim.run_fst] at hh ⊢
+  obtain ⟨m, vm, h1, h2, h3⟩ := Sim.halts_sim hc hV hh
+  exact ⟨m, vm, (vmRun_eq_runFrom p m).trans h1, h2, stacksAgree_of p vm _ _ h3⟩
 
 /-- if the reference execution runs forever, so does the bytecode -/
 theorem C01_diverges (src : Source) (p : Program)
     (hs : shapeCheck src p = true) (hw : wfCheck p = true)
     (hd : ∀ n, (Sem.run src n (initial src) 0).1.status = .running) :
     ∀ m vm, vmRun p m = .ok vm → vm.isDone = .ok false := by
-  sorry
+  obtain ⟨V, hV⟩ := Sim.valid_of_shapeCheck hs
+  obtain ⟨R, hc⟩ := WF.certOK_of_check hw
+  intro m vm hvm
+  obtain ⟨vt, h1, h2⟩ := Sim.diverges_sim hc hV
+    (fun n => by rw [← Sim.run_fst src n (initial src) 0]; exact hd n) m
+  rw [vmRun_eq_runFrom, h1] at hvm
+  cases hvm
+  exact h2
 
 /-- the bytecode needs at least as many instructions as the reference needs steps of kind
     "execute a statement": a source that has not finished within a budget has not finished on the
